@@ -82,6 +82,7 @@ type view struct {
 	elemKind []string
 	allKinds []string   // kind of every element, parallel to strs (element views only)
 	paras    []paraInfo // paragraphs the element tree was built from (element views only; classification aid)
+	part     int                 // 1: detectors fed with fragments, 2: public API on a PDF
 	input    []text.TextFragment // the fragments the layout code was given (Part 1: the specification; Part 2: Fragments())
 	err      error
 }
@@ -110,6 +111,11 @@ type box struct{ x, y, w, h float64 }
 // verbose (C09_VERBOSE=1): full failure details; the default keeps them short because the recorded findings are hit
 // hundreds of thousands of times in the thorough tier.
 var verbose = os.Getenv("C09_VERBOSE") != ""
+
+// uncertain[i]: a rendering holds fewer copies of item i's text than the input has, but (same text at several
+// positions, or duplicate layers) not few enough to say that THIS item is missing; such an item is neither counted
+// as lost nor used as a surviving witness against an explanation. Set by judge, read by classifyLost.
+var uncertain []bool
 
 type verdict struct {
 	ok      bool
@@ -145,6 +151,7 @@ func judge(items []item, v view, family, aspect string) verdict {
 	n := len(items)
 	lost := make([]bool, n)
 	surplus := make([]bool, n)
+	uncertain = make([]bool, n)
 	var notes []string
 	invented := false
 
@@ -220,6 +227,11 @@ func judge(items []item, v view, family, aspect string) verdict {
 					want[r] += found
 				}
 			}
+			if found < maxC && len(ids) > 1 {
+				for _, i := range ids {
+					uncertain[i] = true
+				}
+			}
 			if found < minC {
 				// minC-found of the fragments with this text are missing; which ones is only ambiguous when the same
 				// text stands at several positions (repeat toggle): settled below
@@ -236,6 +248,23 @@ func judge(items []item, v view, family, aspect string) verdict {
 					surplus[i] = true
 				}
 				notes = append(notes, fmt.Sprintf("text %q occurs %d times in the rendering (input has %d)", t, found, maxC))
+			}
+		}
+		// when the rendering repeats text (element tree: heading + paragraph), a surplus copy of one position can hide
+		// the loss of another position with the same text: such items are no witnesses either way
+		anySurplus := false
+		for i := range items {
+			if surplus[i] {
+				anySurplus = true
+			}
+		}
+		if anySurplus {
+			for _, t := range order {
+				if ids := byText[t]; len(ids) > 1 {
+					for _, i := range ids {
+						uncertain[i] = true
+					}
+				}
 			}
 		}
 		// whatever the per-fragment counts do not account for
@@ -471,7 +500,7 @@ func classifyLost(items []item, lost []bool, family string, v view) []string {
 		for _, ids := range runMembers {
 			all := true
 			for _, i := range ids {
-				if !lost[i] || inPara[i] {
+				if (!lost[i] && !uncertain[i]) || inPara[i] {
 					all = false
 				}
 			}
@@ -527,7 +556,7 @@ func classifyLost(items []item, lost []bool, family string, v view) []string {
 					switch {
 					case lost[i] && !explained[i] && !inPara[i]:
 						L = append(L, i)
-					case !lost[i] && !inGapRow(i) && !viaOther([]int{i}):
+					case !lost[i] && !uncertain[i] && !inGapRow(i) && !viaOther([]int{i}):
 						ok = false // an ordinary fragment of this region survived: the column was not dropped
 					}
 				}
@@ -543,36 +572,59 @@ func classifyLost(items []item, lost []bool, family string, v view) []string {
 			}
 		}
 	}
-	// (c) a whole block smaller than the minimum block size
+	// (c) a whole block smaller than the minimum block size. Blocks are re-derived with the pinned rules of
+	// BlockDetector.groupLinesIntoBlocks: rows of the whole page, top to bottom; a new block starts when the vertical gap
+	// exceeds 1.5 x the average glyph height or the two rows do not overlap horizontally.
 	if family == "block" {
-		var rest []int
-		for i := 0; i < n; i++ {
-			if lost[i] {
-				rest = append(rest, i)
-			}
-		}
-		bl := newUF(n)
-		for a := 0; a < len(rest); a++ {
-			for b := a + 1; b < len(rest); b++ {
-				i, j := rest[a], rest[b]
-				h := math.Max(items[i].h, items[j].h)
-				if sameRow(items[i], items[j]) || (vgap(items[i], items[j]) <= pinAdjacent*h && hgap(items[i], items[j]) == 0) {
-					bl.join(i, j)
+		rowsUF := newUF(n)
+		for a := 0; a < n; a++ {
+			for b := a + 1; b < n; b++ {
+				if sameRow(items[a], items[b]) {
+					rowsUF.join(a, b)
 				}
 			}
 		}
-		bm := map[int][]int{}
-		for _, i := range rest {
-			bm[bl.find(i)] = append(bm[bl.find(i)], i)
+		rm := map[int][]int{}
+		for a := 0; a < n; a++ {
+			rm[rowsUF.find(a)] = append(rm[rowsUF.find(a)], a)
 		}
-		for _, ids := range bm {
-			// block lines are whole rows: no survivor may share a row with a lost fragment
+		var rows [][]int
+		for _, ids := range rm {
+			rows = append(rows, ids)
+		}
+		sort.Slice(rows, func(a, b int) bool {
+			_, _, _, ta := extent(items, rows[a])
+			_, _, _, tb := extent(items, rows[b])
+			if ta != tb {
+				return ta > tb
+			}
+			return rows[a][0] < rows[b][0]
+		})
+		avgH := func(ids []int) float64 {
+			t := 0.0
+			for _, a := range ids {
+				t += items[a].h
+			}
+			return t / float64(len(ids))
+		}
+		var blocks [][]int
+		for r, ids := range rows {
+			if r > 0 {
+				px0, py0, px1, _ := extent(items, rows[r-1])
+				cx0, _, cx1, cy1 := extent(items, ids)
+				gap := py0 - cy1
+				if gap <= pinAdjacent*(avgH(rows[r-1])+avgH(ids))/2 && px1 > cx0 && cx1 > px0 {
+					blocks[len(blocks)-1] = append(blocks[len(blocks)-1], ids...)
+					continue
+				}
+			}
+			blocks = append(blocks, append([]int{}, ids...))
+		}
+		for _, ids := range blocks {
 			whole := true
-			for _, i := range ids {
-				for j := 0; j < n; j++ {
-					if !lost[j] && sameRow(items[i], items[j]) {
-						whole = false
-					}
+			for _, a := range ids {
+				if !lost[a] && !uncertain[a] {
+					whole = false
 				}
 			}
 			if !whole {
@@ -587,8 +639,25 @@ func classifyLost(items []item, lost []bool, family string, v view) []string {
 			default:
 				continue
 			}
-			for _, i := range ids {
-				explained[i] = true
+			for _, a := range ids {
+				explained[a] = true
+			}
+		}
+	}
+	// (e) Part 2: fragment deduplication keys on the position rounded to whole units; a fragment that shares text and
+	// rounded position with an earlier, different fragment is dropped before any layout analysis.
+	if v.part == 2 {
+		rnd := func(f float64) int { return int(f + 0.5) }
+		for a := 0; a < n; a++ {
+			if !lost[a] || explained[a] || items[a].extracted {
+				continue
+			}
+			for b := 0; b < n; b++ {
+				if b != a && items[b].extracted && items[b].text == items[a].text && rnd(items[b].x) == rnd(items[a].x) && rnd(items[b].y) == rnd(items[a].y) {
+					explained[a] = true
+					classes["dedup-merged-neighbour-within-1-unit"] = true
+					break
+				}
 			}
 		}
 	}
